@@ -476,6 +476,20 @@ func FilterLoop(beacon Beacon, next addr.IA, allowIsdLoop bool) error {
 	return filterLoops(hops, allowIsdLoop)
 }
 
+// FilterLoopVia is like FilterLoop for a beacon that is extended by the AS via
+// before it is sent to next: via becomes the last entry of the beacon that next
+// receives, so it takes part in loop detection.
+func FilterLoopVia(beacon Beacon, via, next addr.IA, allowIsdLoop bool) error {
+	hops := buildHops(beacon)
+	if !via.IsZero() {
+		hops = append(hops, via)
+	}
+	if !next.IsZero() {
+		hops = append(hops, next)
+	}
+	return filterLoops(hops, allowIsdLoop)
+}
+
 func buildHops(beacon Beacon) []addr.IA {
 	hops := make([]addr.IA, 0, len(beacon.Segment.ASEntries)+1)
 	for _, asEntry := range beacon.Segment.ASEntries {
